@@ -46,6 +46,19 @@ class Engine(BaseEngine):
                 b = b + [rng.choice(a)]          # shared elements
             f = lambda l: C.tl("%s %s" % (C.tb(i), C.tn(o)) for (i, o) in l)
             out.append(("add", "hll_add %s %s" % (f(a), f(b))))
+        # the longest zero runs a tail can hold: same bucket, tails 00..00, 00..01, 00..02, 00..80, 00..0100, in both orders and
+        # split over the two lists (a register already at the tail's capacity, then an element that exceeds it)
+        for off in range(0, 32):
+            bucket = bytes([rng.getrandbits(8)])
+            def el(tail_end):
+                t = bytes(32 - off - 1)
+                t = t[:len(t) - len(tail_end)] + tail_end if len(tail_end) <= len(t) else t
+                return bytes(off) + bucket + t
+            variants = [el(b""), el(b"\x01"), el(b"\x02"), el(b"\x80"), el(b"\x01\x00")]
+            f = lambda l: C.tl("%s %s" % (C.tb(i), C.tn(o)) for (i, o) in l)
+            for x in variants[1:]:
+                out.append(("add-ceiling", "hll_add %s %s" % (f([(x, off)]), f([(variants[0], off)]))))
+                out.append(("add-ceiling", "hll_add %s %s" % (f([(x, off), (variants[0], off)]), f([(variants[0], off), (x, off)]))))
         # all offsets with the all-zero element (register extreme through add_element)
         for off in range(0, 41):
             out.append(("add-zero", "hll_add %s L0" % C.tl(["%s %s" % (C.tb(bytes(32)), C.tn(off))])))
